@@ -45,6 +45,11 @@ MISSED = {  # seeded change -> what was added to the check after it was missed
  "C09-h": "a walker that keeps the root node object and re-reads it only when root_hash changes",
  "C16-g": "decode_node(0x80): the blank node as a database holds it",
  "C16-h": "encoded paths and node items held in bytearray / memoryview",
+ # round 5 (again after pre-emptive strengthening from the brief and from the agents' reports)
+ "C10-j": "a fat ladder whose spine runs along nibble 0 (all 15 siblings of 72 levels pending: > 1024 prefixes)",
+ "C12-j": "comb histories that first store the WHOLE comb (a full spine of branch nodes below a prefix)",
+ "C13-i": "shrinking bounded by wall-clock (the 257-node ladder was generated and fired, but shrinking its 257 operations ran into the watchdog: INCONCLUSIVE instead of VIOLATION)",
+ "C13-j": "the helpers called on an empty trie through a fresh copy of the blank hash",
 }
 print("| id | change (abridged) | needs | monitor(s) that fired | first run |")
 print("|---|---|---|---|---|")
